@@ -80,3 +80,68 @@ func init() {
 		},
 	})
 }
+
+// ---------------------------------------------------------------------------
+// PeriodicSyncer: two locks.
+
+func periodicSyncerSpecs(c *Ctx) []*LockSpec {
+	n := c.LookupType(localRel, "PeriodicSyncer")
+	if n == nil {
+		c.Broken("type local.PeriodicSyncer not found")
+		return nil
+	}
+	srcLock, storeLock := structField(n, "sourceLock"), structField(n, "storeLock")
+	if srcLock == nil || storeLock == nil {
+		c.Broken("PeriodicSyncer.sourceLock / storeLock not found")
+		return nil
+	}
+	m := func(name string) *types.Func {
+		f := c.IfaceMethod(localRel, "PersistentStateSource", name)
+		if f == nil {
+			c.Broken("PersistentStateSource.%s not found", name)
+		}
+		return f
+	}
+	wps := c.IfaceMethod(localRel, "PersistentStateStore", "WritePersistentState")
+	if wps == nil {
+		c.Broken("PersistentStateStore.WritePersistentState not found")
+		return nil
+	}
+	inScope := func(fd *ast.FuncDecl, recv *types.Named) bool { return recv != nil && recv.Obj() == n.Obj() }
+	isEntry := func(fd *ast.FuncDecl) bool { return fd.Name.IsExported() }
+	source := &LockSpec{
+		RuleID: c.rule.ID, Pkg: c.Pkg(localRel), Lock: srcLock, InScope: inScope, IsEntry: isEntry, NoBlockWhileHeld: true,
+		Guards: []LockGuard{
+			{Name: "PersistentStateSource.GetBlockReleaseWakeup", Req: 1, CallOf: m("GetBlockReleaseWakeup")},
+			{Name: "PersistentStateSource.GetBlockPutWakeup", Req: 1, CallOf: m("GetBlockPutWakeup")},
+			{Name: "PersistentStateSource.GetPersistentState", Req: 1, CallOf: m("GetPersistentState")},
+			{Name: "PersistentStateSource.NotifySyncStarting", Req: 2, CallOf: m("NotifySyncStarting")},
+			{Name: "PersistentStateSource.NotifySyncCompleted", Req: 2, CallOf: m("NotifySyncCompleted")},
+			{Name: "PersistentStateSource.NotifyPersistentStateWritten", Req: 2, CallOf: m("NotifyPersistentStateWritten")},
+		},
+	}
+	store := &LockSpec{
+		RuleID: c.rule.ID, Pkg: c.Pkg(localRel), Lock: storeLock, InScope: inScope, IsEntry: isEntry,
+		Guards: []LockGuard{
+			{Name: "PersistentStateSource.GetPersistentState (snapshot)", Req: 2, CallOf: m("GetPersistentState")},
+			{Name: "PersistentStateStore.WritePersistentState", Req: 2, CallOf: wps},
+			{Name: "PersistentStateSource.NotifyPersistentStateWritten (acknowledge)", Req: 2, CallOf: m("NotifyPersistentStateWritten")},
+		},
+	}
+	return []*LockSpec{source, store}
+}
+
+func init() {
+	register(&Rule{
+		ID: "R02.3", Props: []string{"C02", "C04", "C07"}, Engine: "lockstate",
+		Text: "PeriodicSyncer: snapshot (GetPersistentState), state-file write and acknowledgement (NotifyPersistentStateWritten) happen under one hold of storeLock, which is released on every exit (also when the write fails); the PersistentStateSource methods are called with the block-list lock in the mode their interface comments demand (read for the wake-up channels and the snapshot, write for the three notifications); the block-list lock is never held while blocking on a channel; helper preconditions (notifyAndSyncDataLocked is entered and left with the write lock) hold at every call site",
+		Floor: 12, MustExist: true,
+		Run: func(c *Ctx) {
+			for _, spec := range periodicSyncerSpecs(c) {
+				la := newLockAnalysis(c.Program, spec)
+				la.Run()
+				la.Emit(c)
+			}
+		},
+	})
+}
